@@ -99,6 +99,22 @@ pub fn unused_operator(e: &Expr, used: bool) -> bool {
     }
 }
 
+fn has_effect(e: &Expr) -> bool {
+    e.any(&|x| {
+        matches!(
+            x,
+            Expr::Emit(_) | Expr::Print(_) | Expr::Assign(..) | Expr::OpAssign(..) | Expr::IndexAssign(..) | Expr::IndexOpAssign(..)
+        )
+    })
+}
+
+/// F-C01-4: `x[i] op= e` evaluates `e` before `i` (and before reading `x[i]`): the order is
+/// observable as soon as the index or the right-hand side has an effect (output, assignment) — the
+/// other side may fail or depend on it. Pure index and pure right-hand side are generated and compared.
+pub fn index_op_assign_order(e: &Expr) -> bool {
+    matches!(e, Expr::IndexOpAssign(_, _, i, a) if has_effect(i) || has_effect(a))
+}
+
 /// id of the known finding whose shape the program contains (`root_used`: the surrounding context
 /// uses the program's value)
 pub fn known_shape(p: &Expr, root_used: bool) -> Option<&'static str> {
@@ -110,6 +126,9 @@ pub fn known_shape(p: &Expr, root_used: bool) -> Option<&'static str> {
     }
     if unused_operator(p, root_used) {
         return Some("F-C01-3");
+    }
+    if p.any(&index_op_assign_order) {
+        return Some("F-C01-4");
     }
     None
 }
@@ -162,6 +181,7 @@ fn alias_violation(e: &Expr, retained: bool, m: &HashSet<u32>) -> bool {
         }
         Expr::Break(Some(v)) => ch(v, true),
         Expr::IndexAssign(_, i, a) => ch(i, false) || ch(a, true),
+        Expr::IndexOpAssign(_, _, i, a) => ch(i, false) || ch(a, false),
         // an Index result may be a reference to an inner list: retained inner lists are fine as long
         // as they are never index-assigned — they are not in `m` unless assigned to an `m` variable,
         // which `fresh_list` excludes
@@ -280,14 +300,6 @@ fn placement_violation(e: &Expr, stmt: bool, in_loop: bool, valued: bool, val_he
                 return Some("empty-comparison");
             }
             e.children().iter().find_map(|c| sub(c, false, true))
-        }
-        Expr::OpAssign(ArithOp::Rem, _, a) => {
-            // F-C06-1: `x %= 0` panics (integer remainder by zero); not C01's subject
-            match &**a {
-                Expr::Lit(Lit::Int(n)) if *n != 0 => None,
-                Expr::Lit(Lit::Float(_)) => None,
-                _ => Some("rem-assign-divisor-not-a-nonzero-literal"),
-            }
         }
         Expr::Tuple(es) if es.is_empty() => Some("empty-tuple"),
         Expr::Interp(parts) => {
